@@ -2,11 +2,46 @@
 (R6 block slice), Tokenizer::remove_here_end_tag and TokenParseState::delimit_current_token — every round that asks for another round
 strictly decreases  pending here-tags + 2 * (token started), so the loop cannot spin at end of input."""
 from vx.unit import Unit
-from vx.extract import C
+import re
+
+from vx.extract import C, ExtractError
 
 PROPS = ['C01', 'C19']
 HEADER = '#![feature(pattern)]\nuse vstd::prelude::*;\nverus! {\n'
 FOOTER = '\n} // verus!\nfn main() {}\n'
+
+
+def here_state_writers(src):
+    """Frame by text scan: the here state and the list of pending tags are written only in delimit_current_token (under contract here),
+    in Tokenizer::new (None, no tag), in consume_nested_construct and the `${` arm (set aside and put back: U27d), and where an
+    operator `<<` / `<<-` ends (NextTokenIsHereTag, never InHereDocs).  Any other writer stops the run undecided."""
+    from vx.extract import fn_span
+    t = src.text
+    spans = {}
+    for fn in ('delimit_current_token', 'consume_nested_construct', 'next_token_until', 'new'):
+        try:
+            b, o, e = fn_span(t, fn) if fn != 'new' else fn_span(t[t.index('impl<\'a, R: ?Sized + std::io::BufRead> Tokenizer<'):], 'new')
+        except Exception:
+            raise ExtractError('anchor lost: %s: fn %s' % (src.rel, fn))
+        if fn == 'new':
+            off = t.index('impl<\'a, R: ?Sized + std::io::BufRead> Tokenizer<')
+            b, o, e = b + off, o + off, e + off
+        spans[fn] = (o, e)
+
+    def inside(pos, fn):
+        return spans[fn][0] <= pos < spans[fn][1]
+    for m in re.finditer(r'\.here_state\s*=(?!=)\s*([A-Za-z_:]+)', t):
+        rhs = m.group(1)
+        ok = (inside(m.start(), 'delimit_current_token')
+              or (rhs == 'outer_here_state' and (inside(m.start(), 'consume_nested_construct') or inside(m.start(), 'next_token_until')))
+              or (rhs == 'HereState::NextTokenIsHereTag' and inside(m.start(), 'next_token_until')))
+        if not ok:
+            raise ExtractError('unsupported: %s line %d: the here state is written (`= %s`) at a place this unit does not read' % (src.rel, t.count('\n', 0, m.start()) + 1, rhs))
+    for m in re.finditer(r'(?:&mut\s+(?:self\.cross_state|cross_token_state)\.(?:here_state|current_here_tags)\b|current_here_tags\s*(?:=(?!=)|\.\s*(?:push|remove|pop|clear|truncate|insert|drain|retain|last_mut|iter_mut|swap_remove|append|extend)\b))', t):
+        if not (inside(m.start(), 'delimit_current_token') or inside(m.start(), 'consume_nested_construct') or inside(m.start(), 'next_token_until')):
+            raise ExtractError('unsupported: %s line %d: the pending here tags are written at a place this unit does not read' % (src.rel, t.count('\n', 0, m.start()) + 1))
+        if inside(m.start(), 'next_token_until') and 'take(' not in t[max(0, m.start() - 20):m.start()] and not re.match(r'current_here_tags\s*=\s*outer_here_tags', m.group(0) + t[m.end():m.end() + 20]):
+            raise ExtractError('unsupported: %s line %d: next_token_until writes the pending here tags other than by setting them aside and putting them back' % (src.rel, t.count('\n', 0, m.start()) + 1))
 
 
 def build(repo, findings):
@@ -15,6 +50,7 @@ def build(repo, findings):
     for v in (r'\n\s*MissingHereTagForDocumentBody,', r'\n\s*MissingHereTag\(String\),', r'\n\s*UnterminatedHereDocuments\(String, String\),'):
         src.require_text(v, 'projected variant of TokenizerError')
     src.require_text(r'#\[default\]\n\s*None,', 'HereState defaults to None (std::mem::take leaves None)')
+    here_state_writers(src)
     u.raw(HEADER)
     u.prelude('std/str_ops.rs')
     u.add(src.item(r'^pub\(crate\) enum TokenEndReason ', 'TokenEndReason').r1(keep_derive=()).r11_pub())
@@ -39,6 +75,7 @@ def build(repo, findings):
         C('aux in-here-docs-means-a-tag-is-pending', 'old(cross_token_state).here_state is InHereDocs ==> old(cross_token_state).current_here_tags@.len() > 0'),
     ], ensures=[
         C('C01 closing-a-body-pops-the-token-and-moves-the-tag-count-as-the-state-says', '(reason is HereDocumentBodyEnd && res is Ok) ==> body_end_effect(*old(cross_token_state), *final(cross_token_state), *final(self))'),
+        C('C01,C19 in-here-docs-still-means-a-tag-is-pending', 'res is Ok ==> (final(cross_token_state).here_state is InHereDocs ==> final(cross_token_state).current_here_tags@.len() > 0)'),
     ])
     u.raw('impl TokenParseState {')
     u.add(d)
@@ -100,7 +137,7 @@ def build(repo, findings):
     u.add(n2)
     u.raw(FOOTER)
     u.assume('external_body', 'Tokenizer::next_char (None at the end of the input), TokenParseState::{pop, started_token, current_token, is_newline, append_str, replace_with_here_doc} and the string helpers are stubs read off their bodies; Token is opaque')
-    u.assume('stub', 'the invariant "InHereDocs implies a pending tag" is a precondition here and is NOT established for the other call sites of delimit_current_token; the rest of next_token_until (every other branch consumes a character or ends the token — argued in DESIGN.md, not machine-checked) is outside')
+    u.assume('stub', 'the invariant "InHereDocs implies a pending tag" is a precondition of the three functions and a postcondition of delimit_current_token; that nothing else can break it is a frame by TEXT SCAN (here_state_writers: the state and the tag list are written only there, in Tokenizer::new, where an operator ends — never InHereDocs — and in the set-aside / put-back pairs U27d proves), not a Verus obligation; the rest of next_token_until (every other branch consumes a character or ends the token — argued in DESIGN.md, not machine-checked) is outside')
     u.assume('assume_specification', 'str::ends_with(char) (contracts/std/str_ops.rs)')
     u.assume('uninterp', 'str_ends_with_spec')
     u.assume('axiom', 'str::ends_with(char) looks at the last character')
